@@ -49,7 +49,7 @@ def _work(job):
     rt.set_width(case.get("width", _W["width"]))
     try:
         res = core.explore_case(mod.PROPERTY, make, case, _W["kf"], max_paths=opts["max_paths"],
-                                witness_every=opts["witness_every"], time_budget=opts["case_budget"])
+                                witness_every=opts["witness_every"], time_budget=case.get("case_budget", opts["case_budget"]))
     except rt.HarnessError as e:
         res = {"case": case, "harness_error": str(e)}
     except Exception as e:  # noqa: BLE001
